@@ -91,7 +91,7 @@ type Worker struct {
 	// Unknown counts violations that are not recorded findings.
 	Unknown int
 
-	res WorkerResult
+	res    WorkerResult
 	seenNT map[uint64]struct{}
 }
 
